@@ -1,8 +1,82 @@
-"""C04 — REQ/REP matching.  Runs the REQ half (vlib/props/c04req.py) and, when present, the REP half."""
-import importlib
-from . import c04req
+"""C04 — REQ/REP: replies reach only the matching outstanding request.
+Runs the requester half (vlib/props/c04req.py: REQ) and the replier half (vlib/props/c04rep.py: REP, raw REP, raw REQ)
+under one verdict and one evidence file."""
+import time, json
+from .. import core, build, lean, sim
+from . import c04req, c04rep
+
+PROP = "C04"
+MODULES = ["NngModel.Props.C04Req", "NngModel.Props.C04Rep"]
 
 
 def run(tier, seed, replay=None):
-    rc = c04req.run_prop("C04", ["NngModel.Props.C04Req"], ("C04",), tier, seed, replay)
-    return rc
+    t0 = time.time()
+    v = core.Verdict(PROP, seed)
+    core.clear_replays(PROP)
+    st = lean.prepare(MODULES)
+    core.log(PROP, f"lean: {len(st.discharged)}/{len(st.theorems)} theorems re-checked; extract {st.extract_count} constants "
+                   f"(changed: {st.extract_changed}); {st.build_s:.1f}s")
+    try:
+        exe = sim.build_sim("s_proto", ["s_proto.c"])
+    except build.BuildError as e:
+        v.violation("build", {"kind": "build", "error": str(e), "log": e.log[-4000:]}, no_input=True)
+        core.write_evidence(PROP, tier, seed, "proof", {"obligations": max(1, len(st.theorems)), "discharged": 0, "checker_cmd": "lake build",
+                            "trusted_base": [], "explanation": "implementation or harness does not build"}, [], time.time() - t0, 1)
+        return v.finish()
+    req_replay = rep_replay = None
+    rops = scheds = None
+    if replay:
+        rp = json.load(open(replay))
+        ops = rp.get("ops", [])
+        first_open = next((o for o in ops if o.startswith("open")), "open req")
+        if first_open.startswith("open req") and "raw" not in first_open:
+            req_replay = replay
+        else:
+            rops = ops
+            if rops and rops[0].startswith("sched"):
+                scheds = (int(rops[0].split()[1]),)
+                rops = rops[1:]
+            rep_replay = True
+    found = False
+    cov = {}
+    if not rep_replay:
+        part = c04req.run_req_part(tier, seed, req_replay, ("C04",), st.driver_ok)
+        core.log(PROP, "REQ: " + ", ".join(f"{k} {x}" for k, x in part["counts"].items()))
+        for tag, payload, no_input in part["violations"]:
+            v.violation(tag, payload, no_input=no_input)
+        found = found or part["found_input"]
+        cov["req"] = part["coverage"]
+    if not req_replay:
+        part = c04rep.run_rep_part(tier, seed, st, exe, rops, scheds)
+        tot = part["tot"]
+        core.log(PROP, f"REP/XREP/XREQ: cases {tot['cases']} runs {tot['runs']} ops {tot['ops']}; judge violations {tot['judge']}, "
+                       f"model mismatches {tot['model']}, crashes {tot['crash']}")
+        for tag, payload, no_input in part["violations"]:
+            v.violation(tag, payload, no_input=no_input)
+        found = found or part["found_input"]
+        cov["rep"] = {"evaluations": tot["runs"], "ops": tot["ops"], "op_histogram": part["op_hist"], "event_histogram": part["ev_hist"],
+                      "samples": [part["allops"][0], part["allops"][-1]] if part["allops"] else [],
+                      "distinct_nontrivial": len({tuple(o) for o in part["allops"] if len(o) > 4}),
+                      "judge_violations": tot["judge"], "model_mismatches": tot["model"], "crashes": tot["crash"]}
+    if not found and not st.ok:
+        v.violation("proof", {"kind": "proof obligation no longer checks", "broken": st.broken, "log": st.log[-3000:]}, no_input=True)
+    ev = sum(int(c.get("evaluations", 0)) for c in cov.values())
+    dn = sum(int(c.get("distinct_nontrivial", 0)) for c in cov.values())
+    samples = []
+    for c in cov.values():
+        samples += list(c.get("samples", []))[:2]
+    coverage = {"obligations": len(st.theorems), "discharged": len(st.discharged),
+                "checker_cmd": "lake build NngModel.Props.C04Req NngModel.Props.C04Rep && lake env lean <#print axioms for each theorem>",
+                "trusted_base": ["Lean 4.33.0 kernel", "axioms: " + ", ".join(sorted({a for x in st.axioms.values() if x for a in x})),
+                                 "vlib/extract_c04req.py, extract_c04rep.py", "harness/simplat.c, mocktran.c, s_proto.c",
+                                 "vlib/props/c04req.py (interactive id renaming), c04rep_filter.py (pipe-id renaming), vlib/sim.py", "gcc ASan/UBSan/LSan"],
+                "theorems": st.discharged, "axioms": st.axioms, "broken": st.broken,
+                "evaluations": max(ev, 1), "distinct_nontrivial": dn,
+                "rule": "requester half: REQ histories (contexts, pipes, reply streams with current/stale/foreign/duplicate/low-bit/short ids, resend-time changes, virtual time); "
+                        "replier half: REP / raw REP / raw REQ histories (backtraces 0-17 hops, malformed, TTL 1-15, ESTATE misuse, pipe loss); each under several schedule seeds; "
+                        "distinct = distinct op lists longer than 4", "samples": samples, "halves": cov, "extract_changed": st.extract_changed}
+    core.write_evidence(PROP, tier, seed, "proof", coverage,
+                        ["protocol callbacks are atomic under the protocol mutex (SIM still interleaves their unlocked tails)",
+                         "the mock transport honours the transport contract", "bodies pairwise distinct within a case"],
+                        time.time() - t0, len(v.violations))
+    return v.finish()
